@@ -362,6 +362,28 @@ func genPrograms() [][]string {
 			one("<" + b + ">")
 		}
 	}
+	// nesting spines of depth 3 and 4: at every level the conditional has or lacks an else
+	// arm and the next level sits in its then- or else-part; conditions over p1..p3
+	var spine func(level, depth int) []string
+	spine = func(level, depth int) []string {
+		c := []string{"%p1", "%p2", "%p3"}[level%3]
+		tag := string(rune('A' + level))
+		if level == depth-1 {
+			return []string{"%?" + c + "%t" + tag + "%;", "%?" + c + "%t" + tag + "%e" + strings.ToLower(tag) + "%;"}
+		}
+		var out []string
+		for _, in := range spine(level+1, depth) {
+			out = append(out, "%?"+c+"%t"+tag+in+tag+"%;")
+			out = append(out, "%?"+c+"%t"+tag+in+tag+"%e"+strings.ToLower(tag)+"%;")
+			out = append(out, "%?"+c+"%t"+tag+"%e"+strings.ToLower(tag)+in+strings.ToLower(tag)+"%;")
+		}
+		return out
+	}
+	for _, d := range []int{3, 4} {
+		for _, p := range spine(0, d) {
+			one("<" + p + ">Z")
+		}
+	}
 	// the shape the database uses for colours, with nesting inside both arms
 	one("\x1b[%?%p1%{8}%<%t3%p1%d%e%p1%{16}%<%t9%p1%{8}%-%d%e38;5;%p1%d%;m")
 	one("%?%p1%t%?%p2%tB%eC%;D%eE%;")
